@@ -229,7 +229,7 @@ func rejectingOther(ec edgeCond) bool {
 
 func normVisitPath(prm *ssa.Parameter, arg ssa.Value) (string, bool) {
 	p := path(arg)
-	pre := prm.Name() + "."
+	pre := pname(prm) + "."
 	if !strings.HasPrefix(p, pre) {
 		return p, false
 	}
@@ -255,8 +255,8 @@ func c08Pass(c *Ctx, rtp string, k2s map[int64]string, s2k map[string]int64, wri
 	r, t := c.R, c.T
 	pk := t.SSA[rtp]
 	tag := pk.Pkg.Name()
-	stmtV := pk.Func("RunStmtCheck")
-	listV := pk.Func("RunStmtsCheck")
+	stmtV := pkgFunc(pk, "RunStmtCheck")
+	listV := pkgFunc(pk, "RunStmtsCheck")
 	if stmtV == nil || listV == nil {
 		r.Undecided("ANCHOR", tag+".RunStmtCheck/RunStmtsCheck", "", "visitor functions not found")
 		return
@@ -286,7 +286,7 @@ func c08Pass(c *Ctx, rtp string, k2s map[int64]string, s2k map[string]int64, wri
 		ok := false
 		allInstrs(listV, func(in ssa.Instruction) {
 			if call, ok2 := in.(*ssa.Call); ok2 && call.Call.StaticCallee() == stmtV {
-				if p := path(call.Call.Args[len(call.Call.Args)-1]); strings.HasSuffix(p, "[*]") && strings.HasPrefix(p, listV.Params[len(listV.Params)-1].Name()) {
+				if p := path(call.Call.Args[len(call.Call.Args)-1]); strings.HasSuffix(p, "[*]") && strings.HasPrefix(p, pname(listV.Params[len(listV.Params)-1])) {
 					ok = true
 				}
 			}
@@ -434,7 +434,7 @@ func c08Pass(c *Ctx, rtp string, k2s map[int64]string, s2k map[string]int64, wri
 			cfg := &specCfg{MaxLoop: 2, MaxDepth: 3, Call: stdErrCall}
 			var args []sval
 			for _, p := range fn.Params {
-				args = append(args, symv(p.Name()))
+				args = append(args, symv(pname(p)))
 			}
 			outs, ab := cfg.run(fn, args)
 			nErr, nOK, bad := 0, 0, false
@@ -489,7 +489,7 @@ func leafConstrained(fn *ssa.Function, prm *ssa.Parameter, w string) bool {
 		if bo.Op == token.NEQ {
 			rej = b.Succs[0]
 		}
-		if path(bo.X) == prm.Name()+"."+w+".NodeType" && rejecting(rej) {
+		if path(bo.X) == pname(prm)+"."+w+".NodeType" && rejecting(rej) {
 			return true
 		}
 	}
@@ -508,9 +508,9 @@ func classifyGuard(ec edgeCond, prm *ssa.Parameter, w string, stmtV, listV *ssa.
 	case *ssa.BinOp:
 		x, y := path(cnd.X), path(cnd.Y)
 		// self nil test: path is a prefix of prm.w
-		full := prm.Name() + "." + w
+		full := pname(prm) + "." + w
 		if y == "nil" && (cnd.Op == token.NEQ && ec.Pol || cnd.Op == token.EQL && !ec.Pol) {
-			if strings.HasPrefix(stripIdx(full), stripIdx(x)) && strings.HasPrefix(x, prm.Name()+".") {
+			if strings.HasPrefix(stripIdx(full), stripIdx(x)) && strings.HasPrefix(x, pname(prm)+".") {
 				return "self-nil-test"
 			}
 		}
@@ -562,11 +562,11 @@ func c08CallCheck(c *Ctx, tag string, cf, listV *ssa.Function) {
 			case "GetFuncCheck", "GetFnCheck":
 				getCheck = call
 			}
-			if f == listV && path(call.Call.Args[len(call.Call.Args)-1]) == prm.Name()+".Param" {
+			if f == listV && path(call.Call.Args[len(call.Call.Args)-1]) == pname(prm)+".Param" {
 				visitParams = call
 			}
 			// or the element visitor applied to every expr.Param[*] in a loop over the whole list
-			if f != listV && f.Pkg == cf.Pkg && f.Name() == "RunStmtCheck" && path(call.Call.Args[len(call.Call.Args)-1]) == prm.Name()+".Param[*]" {
+			if f != listV && f.Pkg == cf.Pkg && f.Name() == "RunStmtCheck" && path(call.Call.Args[len(call.Call.Args)-1]) == pname(prm)+".Param[*]" {
 				visitParams, elementLoop = call, true
 			}
 		} else if !call.Call.IsInvoke() {
@@ -593,7 +593,7 @@ func c08CallCheck(c *Ctx, tag string, cf, listV *ssa.Function) {
 		return false
 	}
 	nameArg := func(get *ssa.Call) bool {
-		return get != nil && path(get.Call.Args[len(get.Call.Args)-1]) == prm.Name()+".Name"
+		return get != nil && path(get.Call.Args[len(get.Call.Args)-1]) == pname(prm)+".Name"
 	}
 	// the same four facts decided on the function's outcomes (phases split into helpers are inlined)
 	sp := c08CallCheckSpec(cf, prm, listV)
@@ -609,7 +609,7 @@ func c08CallCheck(c *Ctx, tag string, cf, listV *ssa.Function) {
 			if elementLoop {
 				// the loop's own continuation test over the same list is not a condition on the visit
 				cs := ec.String()
-				if strings.Contains(cs, "< len("+prm.Name()+".Param)") || strings.Contains(cs, "rangeindex") {
+				if strings.Contains(cs, "< len("+pname(prm)+".Param)") || strings.Contains(cs, "rangeindex") {
 					continue
 				}
 			}
@@ -720,7 +720,7 @@ func c08LoopDepth(c *Ctx, tag string, fn, listV *ssa.Function) {
 		})
 		return found
 	}
-	chain = bodyChain(fn, func(v ssa.Value) bool { return strings.HasPrefix(path(v), prm.Name()+".Body") }, 0)
+	chain = bodyChain(fn, func(v ssa.Value) bool { return strings.HasPrefix(path(v), pname(prm)+".Body") }, 0)
 	switch {
 	case len(chain) == 1:
 		body = chain[0]
@@ -1122,7 +1122,7 @@ func helperVisitSummary(h *ssa.Function, stmtV, listV *ssa.Function, isCheckFn m
 	paramRel := func(v ssa.Value) (int, string, bool) {
 		p := path(v)
 		for j, prm := range h.Params {
-			n := prm.Name()
+			n := pname(prm)
 			if p == n {
 				return j, "", true
 			}
@@ -1289,12 +1289,12 @@ func c08CallCheckSpec(cf *ssa.Function, prm *ssa.Parameter, listV *ssa.Function)
 		}
 		switch cal.Name() {
 		case "GetFuncCall", "GetFn":
-			if last == prm.Name()+".Name" {
+			if last == pname(prm)+".Name" {
 				return sval{tup: []sval{symv("fn"), symv("hasFn")}}, true
 			}
 			return sval{tup: []sval{symv("fn?"), symv("hasOtherFn")}}, true
 		case "GetFuncCheck", "GetFnCheck":
-			if last == prm.Name()+".Name" {
+			if last == pname(prm)+".Name" {
 				return sval{tup: []sval{symv("checker"), symv("hasChk")}}, true
 			}
 			return sval{tup: []sval{symv("checker?"), symv("hasOtherChk")}}, true
@@ -1302,7 +1302,7 @@ func c08CallCheckSpec(cf *ssa.Function, prm *ssa.Parameter, listV *ssa.Function)
 			return errValue("chained"), true
 		}
 		if cal == listV {
-			if last == prm.Name()+".Param" {
+			if last == pname(prm)+".Param" {
 				return symv("effect:visit-args"), true
 			}
 			return symv("effect:visit-other"), true
@@ -1310,14 +1310,14 @@ func c08CallCheckSpec(cf *ssa.Function, prm *ssa.Parameter, listV *ssa.Function)
 		return stdErrCall(fn, call, nth, args)
 	}
 	cfg.DynCall = func(fn *ssa.Function, call *ssa.Call, callee sval, args []sval) (sval, bool) {
-		if callee.String() == "checker" && len(args) == 2 && args[1].String() == prm.Name() {
+		if callee.String() == "checker" && len(args) == 2 && args[1].String() == pname(prm) {
 			return symv("verdict"), true
 		}
 		return symv("effect:other-dynamic-call"), true
 	}
 	var args []sval
 	for _, p := range cf.Params {
-		args = append(args, symv(p.Name()))
+		args = append(args, symv(pname(p)))
 	}
 	outs, ab := cfg.run(cf, args)
 	if ab != "" || len(outs) == 0 {
